@@ -156,7 +156,22 @@ func init() {
 			u.msgCase(w, ti, c, buildOpts{})
 			w.Flush()
 			cols := strings.Split(buf.String(), "\t")
-			return len(cols) > 5 && (strings.Contains(cols[5], args[2]) || cols[4] == "PANIC")
+			if len(cols) <= 5 {
+				return false
+			}
+			if cols[4] == "PANIC" {
+				return true
+			}
+			if strings.Contains(args[2], "=") || args[2] == "bad" {
+				return strings.Contains(cols[5], args[2])
+			}
+			// a flag family (e.g. c08 -> c08o, c08r): any member that is bad
+			for _, fl := range strings.Split(cols[5], ",") {
+				if strings.HasPrefix(fl, args[2]) && strings.HasSuffix(fl, "=bad") {
+					return true
+				}
+			}
+			return false
 		}
 		if !fails(v) {
 			return fmt.Errorf("value does not fail %s", args[2])
